@@ -664,6 +664,19 @@ func (db *DB) searchAll(o Object, field, operator string, value interface{}, con
 		return &Search{db: db, err: err}
 	}
 
+	// arguments are checked as for indexed fields
+	switch operator {
+	case "=", "!=", ">", ">=", "<", "<=":
+	case "~=":
+		if sval, ok := search.Value.(string); ok {
+			if _, err = regexp.Compile(sval); err != nil {
+				return &Search{db: db, err: err}
+			}
+		}
+	default:
+		return &Search{db: db, err: fmt.Errorf("%w %s", ErrUnkownSearchOperator, operator)}
+	}
+
 	// building up the iterator out of constrain
 	if constrain != nil {
 		uuids := make([]string, 0, len(constrain))
